@@ -242,14 +242,166 @@ def _mk_class(cls):
 for _c in CLASSES:
     _mk_class(_c)
 
+
+# ----------------------------------------------------------------------- adaptive neuron classes
+ADAPTIVE = {
+    "ALIF": (NL, ["rest_v", "reset_v", "thresh_eq_v", "refrac_t", "tc_membrane", "resistance"], "linear", "threshold"),
+    "GLIF2": (NL, ["rest_v", "reset_v_add", "reset_v_mul", "thresh_eq_v", "refrac_t", "tc_membrane", "resistance"], "linear", "threshold_rate"),
+    "Izhikevich": (NN, ["rest_v", "crit_v", "affinity", "reset_v", "thresh_v", "refrac_t", "tc_membrane", "resistance"], "quad", "current"),
+    "AdEx": (NN, ["rest_v", "rheobase_v", "sharpness", "reset_v", "thresh_v", "refrac_t", "tc_membrane", "resistance"], "exp", "current"),
+}
+
+
+def _mk_adaptive(cls):
+    file, names, dynkind, akind = ADAPTIVE[cls]
+    mixin = "AdaptiveThresholdMixin" if akind.startswith("threshold") else "AdaptiveCurrentMixin"
+    state_attr = "threshold_adaptation_" if akind.startswith("threshold") else "current_adaptation_"
+
+    @contract(P, f"{cls}.forward", [(file, f"{cls}.forward"), (file, f"{cls}._integrate_v"), (file, f"{cls}.__init__"), (NM, f"{mixin}.__init__"), (NM, f"{mixin}.{state_attr[:-1]}@setter"), (NM, "SpikeRefractoryMixin.spike"), (NA, "apply_adaptive_thresholds" if akind.startswith("threshold") else "apply_adaptive_currents")], tags=("class",))
+    def fwd(c, cls=cls):
+        dt = c.real("dt")
+        kw = _kw(c, names)
+        z = {k_: v_.z for k_, v_ in kw.items()}
+        th_name = "thresh_eq_v" if "thresh_eq_v" in kw else "thresh_v"
+        c.require(dt > 0, kw["rest_v"] < kw[th_name], kw["refrac_t"] >= 0, kw["tc_membrane"] > 0, kw["resistance"] != 0)
+        if "reset_v" in kw:
+            c.require(kw["reset_v"] < kw[th_name])
+        if "sharpness" in kw:
+            c.require(kw["sharpness"] > 0, kw["rheobase_v"] > kw["rest_v"], kw["rheobase_v"] <= kw["thresh_v"])
+        if "affinity" in kw:
+            c.require(kw["affinity"] > 0, kw["crit_v"] > kw["rest_v"], kw["crit_v"] <= kw["thresh_v"])
+        # two adaptation components with symbolic constants; component j is arbitrary
+        p1, p2, i1, i2, v1_, v2_ = (c.real(n) for n in ("ad_const_0", "ad_const_1", "incr_0", "incr_1", "vc_0", "vc_1"))
+        c.require(p1 > 0, p2 > 0)
+        akw = {"rc_adaptation" if akind == "threshold_rate" else "tc_adaptation": (p1, p2), "spike_increment": (i1, i2)}
+        if akind == "current":
+            akw["voltage_coupling"] = (v1_, v2_)
+        reductions = []
+
+        def batchreduce(itp, x, dim=0, **k2):
+            reductions.append((x, dim))
+            # one arbitrary sample: the configured reduction (mean by default) is applied to it alone; the batch
+            # dimension disappears from the shape
+            es = tz.Shape(x.eshape.items[1:]) if x.eshape is not None and len(x.eshape.items) > 1 else x.eshape
+            return T(x.f, x.dtype, x.tlen, x.taxis, es, x.nan)
+
+        cv = c.interp.classv(repo.load_module(file).classes[cls])
+        out = c.outcome(cv, (3,), dt, batch_reduction=Model(batchreduce, "batch_reduction"), **kw, **akw)
+        c.expect_return(out, "constructor")
+        n = out.value
+        S, SU = tz.Shape((1, 3)), tz.Shape((3,))
+        V, Rr, I = c.pw("V", "float", eshape=S), c.pw("Rr", "float", eshape=S), c.pw("I", "float", eshape=S)
+        c.require(Rr.f >= 0, Rr.f <= z["refrac_t"])
+        n.fields["_voltage__data"] = V
+        n.fields["_refrac__data"] = Rr
+        A = c.seq("A", 2, "float", "last", SU)
+        AF = c.symbols["A"]
+        n.fields[state_attr] = A
+        j = c.int("j")
+        c.require(0 <= j, j < 2)
+        sel = lambda a, b: z3.If(j.z == 0, a.z, b.z)  # noqa: E731
+        lock = c.choice("refrac_lock", [True, False])
+        adapt = c.choice("adapt", [True, False, None])
+        training = c.bool("training")
+        n.fields["training"] = training
+        SA = c.interp.torch_ns.get("sum")(A, dim=-1).f  # the (uninterpreted) sum over the adaptation axis
+        res = c.outcome(c.getattr(n, "forward"), I, adapt=adapt, refrac_lock=lock)
+        c.expect_return(res)
+        sp = res.value
+        tau, Rm = z["tc_membrane"], z["resistance"]
+        if dynkind == "linear":
+            dyn = lambda i: z["rest_v"] + (V.f - z["rest_v"] - Rm * i) * f_exp(-dt.z / tau) + Rm * i  # noqa: E731
+        elif dynkind == "quad":
+            dyn = lambda i: V.f + dt.z / tau * (z["affinity"] * (V.f - z["rest_v"]) * (V.f - z["crit_v"]) + Rm * i)  # noqa: E731
+        else:
+            dyn = lambda i: V.f + dt.z / tau * (-(V.f - z["rest_v"]) + z["sharpness"] * f_exp((V.f - z["rheobase_v"]) / z["sharpness"]) + Rm * i)  # noqa: E731
+        if akind.startswith("threshold"):
+            thresh, Ieff = z[th_name] + SA, I.f
+        else:
+            thresh, Ieff = z[th_name], I.f - SA
+        if cls == "GLIF2":
+            reset_fn = lambda vi: z["rest_v"] + z["reset_v_mul"] * (vi - z["rest_v"]) - z["reset_v_add"]  # noqa: E731
+        else:
+            reset_fn = lambda vi: z["reset_v"]  # noqa: E731
+        esp, ev, er, _rd, _vi = step_spec(Ieff, Rr.f, V.f, dyn, dt.z, thresh, z["refrac_t"], reset_fn, lock)
+        v1, r1 = c.getattr(n, "voltage"), c.getattr(n, "refrac")
+        c.ensure("returns_spikes_of_step_contract_with_adapted_" + ("threshold" if akind.startswith("threshold") else "input"), sp.f == esp)
+        c.ensure("stores_voltage", v1.f == ev)
+        c.ensure("stores_refrac", r1.f == er)
+        c.ensure("invariant_refrac_range", z3.And(r1.f >= 0, r1.f <= z["refrac_t"]))
+        a1 = n.fields[state_attr]
+        does = z3.BoolVal(True) if adapt is True else (z3.BoolVal(False) if adapt is False else training.z)
+        # the adaptation rule is stated over the step's OWN results (spikes, voltage, refractory state), which the
+        # clauses above pin to the step contract: keeps the nonlinear terms syntactically aligned
+        esp, ev, er = sp.f, v1.f, r1.f
+        frozen = z3.And(z3.BoolVal(bool(lock)), er > 0)
+        Aj = AF(j.z)
+        if akind == "threshold":
+            upd = z3.If(frozen, Aj, Aj * f_exp(-dt.z / sel(p1, p2)))
+        elif akind == "threshold_rate":
+            upd = z3.If(frozen, Aj, Aj * f_exp(-dt.z / (1 / sel(p1, p2))))
+        else:
+            upd = z3.If(frozen, Aj, Aj + dt.z / sel(p1, p2) * (sel(v1_, v2_) * (ev - z["rest_v"]) - Aj))
+        upd = upd + z3.If(esp, sel(i1, i2), 0)
+        c.ensure("adaptation_updated_iff_adapting_by_the_documented_rule", a1.at(j.z) == z3.If(does, upd, Aj))
+        # `does` is decided on this path: the documented batch reduction is applied exactly once, over dimension 0
+        c.ensure("adaptation_state_keeps_its_unbatched_shape", tuple(a1.eshape.items) == (3,) and a1.tlen == 2)
+        c.ensure("batch_reduction_applied_once_over_dim_0_iff_adapting", z3.If(does, z3.BoolVal(len(reductions) == 1 and all(d == 0 for _x, d in reductions)), z3.BoolVal(len(reductions) == 0)))
+        attr = c.getattr(n, "spike")
+        c.ensure("spike_attribute_equals_last_output_when_refrac_t_positive", z3.Implies(z["refrac_t"] > 0, attr.f == sp.f))
+        c.ensure("spike_attribute_equals_last_output", attr.f == sp.f)
+        c.canary("canary_adaptation_unchanged", z3.And(does, a1.at(j.z) == Aj, esp, sel(i1, i2) != 0, z3.Not(frozen)))
+
+    @contract(P, f"{cls}.clear", [(file, f"{cls}.clear")], tags=("class",))
+    def clr(c, cls=cls):
+        dt = c.real("dt")
+        kw = _kw(c, names)
+        th_name = "thresh_eq_v" if "thresh_eq_v" in kw else "thresh_v"
+        c.require(dt > 0, kw["rest_v"] < kw[th_name], kw["refrac_t"] >= 0, kw["tc_membrane"] > 0, kw["resistance"] != 0)
+        if "reset_v" in kw:
+            c.require(kw["reset_v"] < kw[th_name])
+        if "sharpness" in kw:
+            c.require(kw["sharpness"] > 0, kw["rheobase_v"] > kw["rest_v"], kw["rheobase_v"] <= kw["thresh_v"])
+        if "affinity" in kw:
+            c.require(kw["affinity"] > 0, kw["crit_v"] > kw["rest_v"], kw["crit_v"] <= kw["thresh_v"])
+        p1, i1 = c.real("ad_const_0"), c.real("incr_0")
+        c.require(p1 > 0)
+        akw = {"rc_adaptation" if akind == "threshold_rate" else "tc_adaptation": p1, "spike_increment": i1}
+        if akind == "current":
+            akw["voltage_coupling"] = c.real("vc_0")
+        cv = c.interp.classv(repo.load_module(file).classes[cls])
+        n = c.call(cv, (3,), dt, **kw, **akw)
+        c.ensure("constructed_at_rest_without_adaptation", z3.And(c.getattr(n, "voltage").f == kw["rest_v"].z, c.getattr(n, "refrac").f == 0, tz.coerce(n.fields[state_attr].f, "float") == 0))
+        n.fields["_voltage__data"] = c.pw("V", "float", eshape=tz.Shape((1, 3)))
+        n.fields["_refrac__data"] = c.pw("Rr", "float", eshape=tz.Shape((1, 3)))
+        A = c.seq("A", 1, "float", "last", tz.Shape((3,)))
+        n.fields[state_attr] = A
+        keep = c.choice("keep_adaptations", [True, False, "default"])
+        c.call(c.getattr(n, "clear"), **({} if keep == "default" else {"keep_adaptations": keep}))
+        a1 = n.fields[state_attr]
+        c.ensure("clear_restores_rest_state", z3.And(c.getattr(n, "voltage").f == kw["rest_v"].z, c.getattr(n, "refrac").f == 0))
+        if keep is False:
+            c.ensure("clear_resets_adaptation_when_asked", (a1.at(0) if a1.tlen is not None else tz.coerce(a1.f, "float")) == 0)
+        else:
+            c.ensure("clear_keeps_learned_adaptation_by_default", a1 is A)
+
+
+for _c in ADAPTIVE:
+    _mk_adaptive(_c)
+
 ASSUMPTIONS = [
     "A1 real arithmetic: the float countdown refrac - dt is exact (bounded float stand-in in native/c03.py)",
     "dynamics callables are pure element-wise functions (uninterpreted in the thresholding kernels)",
     "the value of torch.sum over the adaptation axis is uninterpreted (the step contract does not depend on it)",
-    "adaptive classes (ALIF, GLIF2, Izhikevich, AdEx): their forward uses the same two thresholding kernels and the adaptation kernels proved here; their class-level wiring is covered by the bounded stand-in only",
+    "adaptive classes (ALIF, GLIF2, Izhikevich, AdEx): class-level contracts with TWO adaptation components of symbolic constants (component index arbitrary); the sum over the adaptation axis is an uninterpreted constant tied to the adaptation tensor; the configured batch reduction of adaptations is applied to one arbitrary sample (identity) and its single application over dimension 0 is checked",
 ]
 
 MUTANTS = [
+    dict(file=NL, func="ALIF.forward", old="            thresh_v=nf.apply_adaptive_thresholds(\n                self.thresh_eq_v, self.threshold_adaptation\n            ),", new="            thresh_v=self.thresh_eq_v,", contracts=["ALIF.forward"], name="ALIF ignores its threshold adaptation"),
+    dict(file=NL, func="GLIF2.forward", old="time_constant=1 / self.rc_adaptation,", new="time_constant=self.rc_adaptation,", contracts=["GLIF2.forward"], name="GLIF2 uses the rate constant as a time constant"),
+    dict(file=NM, func="AdaptiveCurrentMixin.current_adaptation@setter", old="self.current_adaptation_ = self.__batchreduce(value, 0)", new="self.current_adaptation_ = self.__batchreduce(value, 1)", contracts=["Izhikevich.forward"], name="adaptation reduced over a non-batch dimension"),
+    dict(file=NN, func="AdEx.forward", old="inputs=nf.apply_adaptive_currents(inputs, self.current_adaptation),", new="inputs=inputs,", contracts=["AdEx.forward"], name="AdEx ignores its adaptation current"),
+    dict(file=NN, func="Izhikevich.forward", old="                voltages=voltages,\n                spikes=spikes,", new="                voltages=self.voltage,\n                spikes=spikes,", contracts=["Izhikevich.forward"], expect="survives", name="control: the stored voltage is the voltage just computed"),
     dict(file=ND, func="voltage_thresholding_constant", old="(refracs - step_time).clamp(min=0)", new="(refracs - step_time)"),
     dict(file=ND, func="voltage_thresholding_constant", old="mask = refracs == 0", new="mask = refracs <= step_time"),
     dict(file=ND, func="voltage_thresholding_constant", old="voltages >= thresh_v", new="voltages > thresh_v"),
